@@ -6,6 +6,7 @@ import (
 	"bytes"
 	"encoding/hex"
 	"fmt"
+	"io"
 	"math/big"
 	"os"
 	"path/filepath"
@@ -183,18 +184,28 @@ func propReaderFailure(t *rapid.T) {
 		rd.Chunks = rapid.SliceOfN(rapid.IntRange(1, 33), 1, 4).Draw(t, "chunks")
 	}
 	api := gen.Sampled([]string{"SignRaw", "Sign"}).Draw(t, "api")
-	stat.Case("readerfail", []string{fmt.Sprintf("j:%d", j), "api:" + api, "error:" + ek}, true, []byte(fmt.Sprintf("%d|%x|%x|%v|%s|%s", j, d, digest, rd.Chunks, api, ek)), func() any {
-		return map[string]any{"fail_after": j, "d": d.Text(16), "chunks": rd.Chunks, "api": api, "error": ek}
+	// the reader is handed over as the argument, or the argument is nil and the reader is what the process-wide
+	// default source (crypto/rand.Reader) is at that moment
+	source := gen.Sampled([]string{"argument", "argument", "process-default"}).Draw(t, "source")
+	stat.Case("readerfail", []string{fmt.Sprintf("j:%d", j), "api:" + api, "error:" + ek, "source:" + source}, true, []byte(fmt.Sprintf("%d|%x|%x|%v|%s|%s|%s", j, d, digest, rd.Chunks, api, ek, source)), func() any {
+		return map[string]any{"fail_after": j, "d": d.Text(16), "chunks": rd.Chunks, "api": api, "error": ek, "source": source}
 	})
 	key := lib.PrivKey(d)
 	var err error
 	var gotSig bool
-	if api == "SignRaw" {
-		r, s, _, e := key.SignRaw(rd, digest)
-		err, gotSig = e, r != nil || s != nil
+	call := func(arg io.Reader) {
+		if api == "SignRaw" {
+			r, s, _, e := key.SignRaw(arg, digest)
+			err, gotSig = e, r != nil || s != nil
+		} else {
+			sig, e := key.Sign(arg, digest, nil)
+			err, gotSig = e, sig != nil
+		}
+	}
+	if source == "argument" {
+		call(rd)
 	} else {
-		sig, e := key.Sign(rd, digest, nil)
-		err, gotSig = e, sig != nil
+		gen.WithProcessEntropy(rd, func() { call(nil) })
 	}
 	if j < 32 {
 		if err == nil || gotSig {
